@@ -70,12 +70,13 @@ def _ent(eid, role, keys):
 
 
 def trust(u11: int, u12: int, u21: int, u22: int, issuer: int, signer: int, embedded: int, only_md: bool, e2_is_sp: bool, nkeys1: int,
-          outer: int = 0):
+          outer: int = 0, h1: int = 0, h2: int = 0):
     """SecurityContext._check_signature with a real metadata store holding two entities (each with
     key descriptors of symbolic use), a claimed Issuer, the certificate whose key really signed, an
     optional embedded KeyInfo certificate and the only_use_keys_in_metadata flag."""
     Clock(1000)
     issuer, signer, embedded, outer = concrete(issuer), concrete(signer), concrete(embedded), concrete(outer)
+    h1, h2 = concrete(h1), concrete(h2)
     uses = [USES[concrete(u)] for u in (u11, u12, u21, u22)]
     nkeys1 = concrete(nkeys1)
     s1 = InMemoryMetaData(None, "")
@@ -93,6 +94,14 @@ def trust(u11: int, u12: int, u21: int, u22: int, issuer: int, signer: int, embe
     item = samlp.Response(id="id-r1", version="2.0", issuer=saml.Issuer(text=ISSUERS[issuer]) if ISSUERS[issuer] is not None else None,
                           signature=SIGS[embedded])
     doc = DOCS[(issuer, embedded)]
+    # earlier look-ups on the same store (what encryption, metadata display or a previous check did)
+    # must not change what the signature check trusts
+    for h in (h1, h2):
+        if h:
+            try:
+                STORE.certs([E1, E2][(h - 1) // 3], "any", USES[(h - 1) % 3])
+            except Exception:
+                pass
     acc = False
     exc = None
     try:
@@ -128,11 +137,11 @@ def trust(u11: int, u12: int, u21: int, u22: int, issuer: int, signer: int, embe
 
 
 _P = [("u11", "int"), ("u12", "int"), ("u21", "int"), ("u22", "int"), ("issuer", "int"), ("signer", "int"), ("embedded", "int"),
-      ("only_md", "bool"), ("e2_is_sp", "bool"), ("nkeys1", "int"), ("outer", "int")]
+      ("only_md", "bool"), ("e2_is_sp", "bool"), ("nkeys1", "int"), ("outer", "int"), ("h1", "int"), ("h2", "int")]
 CONDITIONS = [
     Cond(name="trust", fn="trust", params=_P,
          pre=["0 <= u11 <= 2", "0 <= u12 <= 2", "0 <= u21 <= 2", "0 <= u22 <= 2", "0 <= issuer < %d" % len(ISSUERS), "0 <= signer < %d" % len(CERTS),
-              "0 <= embedded <= 3", "0 <= nkeys1 <= 2", "0 <= outer <= 2"],
+              "0 <= embedded <= 3", "0 <= nkeys1 <= 2", "0 <= outer <= 2", "h1 == 0", "h2 == 0"],
          partitions={"quick": [{"issuer": i, "signer": s, "u22": 0, "u12": (i + s) % 3, "e2_is_sp": (i + s) % 2 == 0, "nkeys1": 2 if (i + s) % 4 else 0, "outer": (i + 2 * s) % 3, "u11": (i * s) % 3}
                                for i in range(len(ISSUERS)) for s in range(len(CERTS))],
                      "thorough": [{"issuer": i, "signer": s, "only_md": f, "e2_is_sp": (i + s) % 2 == 0, "outer": o, "nkeys1": 2 if (i + s + o) % 5 else 1,
@@ -144,6 +153,16 @@ CONDITIONS = [
          bounds="federation of two entities (second one IdP or SP) with 0-2 / 2 key descriptors each of use {signing, encryption, unspecified}; claimed Issuer in {first, second, unknown, absent, "
                 "whitespace-padded first}; issuer of the enclosing message supplied by the caller {none, first, second}; actual signing key in {each of the 4 metadata certificates, an embedded-only certificate}; embedded KeyInfo certificate in {none, first entity's, "
                 "second entity's, unrelated}; only_use_keys_in_metadata on/off (quick: sampled use assignments)"),
+    Cond(name="history", fn="trust", params=_P,
+         pre=["0 <= u11 <= 2", "0 <= u12 <= 2", "0 <= u21 <= 2", "0 <= u22 <= 2", "0 <= issuer <= 1", "0 <= signer <= 3",
+              "0 <= embedded <= 3", "0 <= nkeys1 <= 2", "outer == 0", "0 <= h1 <= 6", "0 <= h2 <= 6"],
+         partitions={"quick": [{"issuer": i, "signer": s, "h1": 2 + 3 * i, "embedded": 0, "nkeys1": 2, "e2_is_sp": False, "u12": 1 + i, "u22": 2 - i, "u21": s % 3} for i in (0, 1) for s in range(4)],
+                     "thorough": [{"issuer": i, "signer": s, "h1": h, "nkeys1": 2, "e2_is_sp": sp, "only_md": f, "u11": a, "u21": a, "u22": (a + 1) % 3} for i in (0, 1) for s in range(4) for h in range(1, 7) for sp in (False, True)
+                                  for f in (False, True) for a in range(3)]},
+         timeout={"quick": 600, "thorough": 1200}, path_timeout=60,
+         functions=["mdstore.MetadataStore.certs", "mdstore.MetaData.certs (extract_certs)", "sigver.SecurityContext._check_signature"],
+         bounds="as trust, preceded by up to two certificate look-ups on the same store (entity x use in {signing, encryption, unspecified}); claimed Issuer one of the two entities; "
+                "quick: one earlier encryption look-up for the claimed issuer, uses of the first key descriptors free"),
 ]
 
 ASSUMPTIONS = [
